@@ -19,6 +19,8 @@ pub enum What {
     FEnd,
     End { dup: bool },
     Unknown,
+    /// one Message Splitter block of an unknown event (`code` = the wrapped code)
+    SplitUnknown { last: bool, code: u8 },
 }
 
 #[derive(Clone, Debug)]
@@ -186,6 +188,9 @@ pub const SJIS_UNITS: &[(&[u8], char)] = &[
     (&[0x81, 0x40], '\u{3000}'), // ideographic space
     (&[0x81, 0x94], '\u{FF03}'), // full-width #
     (&[0xB1], '\u{FF71}'),       // half-width katakana a
+    (&[0xB2], '\u{FF72}'),       // half-width katakana i
+    (&[0xA1], '\u{FF61}'),       // half-width ideographic full stop (first of the single-byte range)
+    (&[0xDF], '\u{FF9F}'),       // half-width semi-voiced mark (last of the single-byte range)
 ];
 
 /// Write a random Shift-JIS string into `field`; returns the expected decoding.
@@ -196,8 +201,10 @@ fn fill_sjis(rng: &mut Rng, field: &mut [u8]) -> String {
     let want = if rng.chance(1, 12) { n } else { rng.usize_below(n) };
     let mut pos = 0;
     let mut s = String::new();
+    // now and then the whole text is one repeated unit (a field dense in 1-byte-to-3-byte or 2-byte units)
+    let mono = if rng.chance(1, 6) { Some(*rng.pick(SJIS_UNITS)) } else { None };
     loop {
-        let (b, c) = *rng.pick(SJIS_UNITS);
+        let (b, c) = mono.unwrap_or_else(|| *rng.pick(SJIS_UNITS));
         if pos + b.len() > want {
             break;
         }
@@ -223,8 +230,9 @@ fn fill_utf8z(rng: &mut Rng, field: &mut [u8]) -> String {
     let want = rng.usize_below(n); // < n so a NUL always fits
     let mut pos = 0;
     let mut s = String::new();
+    let mono = if rng.chance(1, 6) { Some(*rng.pick(UTF8_UNITS)) } else { None };
     loop {
-        let u = *rng.pick(UTF8_UNITS);
+        let u = mono.unwrap_or_else(|| *rng.pick(UTF8_UNITS));
         if pos + u.len() > want {
             break;
         }
@@ -481,6 +489,10 @@ pub fn build(spec: &RecorderSpec) -> Model {
             table.push((u.code, u.size));
         }
     }
+    let splitter_ok = L::gte(v, (3, 3));
+    if splitter_ok && spec.extras.unknown.iter().any(|u| u.split && !u.after.is_empty()) && !table.iter().any(|(c, _)| *c == L::CODE_SPLITTER) {
+        table.push((L::CODE_SPLITTER, 516));
+    }
 
     for (c, sz) in &spec.extras.phantom {
         if !table.iter().any(|(k, _)| k == c) && *sz > 0 && *c != L::CODE_PAYLOADS {
@@ -681,7 +693,8 @@ pub fn build(spec: &RecorderSpec) -> Model {
     }
 
     // unknown event instances: after base event k (clamped to before the first Game End)
-    let mut inserts: BTreeMap<usize, Vec<Vec<u8>>> = BTreeMap::new();
+    // (event bytes, Some((wrapped code, is last block)) for splitter blocks)
+    let mut inserts: BTreeMap<usize, Vec<(Vec<u8>, Option<(u8, bool)>)>> = BTreeMap::new();
     for u in &spec.extras.unknown {
         if !table.iter().any(|(c, s)| *c == u.code && *s == u.size) || L::KNOWN_CODES.contains(&u.code) {
             continue;
@@ -689,11 +702,33 @@ pub fn build(spec: &RecorderSpec) -> Model {
         let mut rng = Rng::new(u.pseed);
         for &k in &u.after {
             // positions >= 1_000_000 mean "after the last Game End, still inside the raw element"
-            let k = if k >= 1_000_000 { usize::MAX } else { (k as usize).min(n_before_end - 1) };
+            let mut k = if k >= 1_000_000 { usize::MAX } else { (k as usize).min(n_before_end - 1) };
+            if u.split && splitter_ok {
+                // a split message never starts inside another one
+                if k != usize::MAX && matches!(base[k].what, What::Gecko { last: false }) {
+                    k = 0;
+                }
+                let total = u.size as usize;
+                let blocks = (total + 511) / 512;
+                let mut remaining = total;
+                for b in 0..blocks {
+                    let mut ev = vec![0u8; 1 + 516];
+                    ev[0] = L::CODE_SPLITTER;
+                    rng.fill(&mut ev[1..513]);
+                    let this = remaining.min(512);
+                    remaining -= this;
+                    ev[513..515].copy_from_slice(&(this as u16).to_be_bytes());
+                    ev[515] = u.code;
+                    let last = b + 1 == blocks;
+                    ev[516] = last as u8;
+                    inserts.entry(k).or_default().push((ev, Some((u.code, last))));
+                }
+                continue;
+            }
             let mut ev = vec![0u8; 1 + u.size as usize];
             rng.fill(&mut ev[1..]);
             ev[0] = u.code;
-            inserts.entry(k).or_default().push(ev);
+            inserts.entry(k).or_default().push((ev, None));
         }
     }
 
@@ -715,15 +750,17 @@ pub fn build(spec: &RecorderSpec) -> Model {
         events.push(Ev { code: p.bytes[0], off: bytes.len(), len: p.bytes.len(), occ: p.occ, what: p.what });
         bytes.extend_from_slice(&p.bytes);
         if let Some(list) = inserts.get(&k) {
-            for u in list {
-                events.push(Ev { code: u[0], off: bytes.len(), len: u.len(), occ: None, what: What::Unknown });
+            for (u, sp) in list {
+                let what = sp.map_or(What::Unknown, |(code, last)| What::SplitUnknown { last, code });
+                events.push(Ev { code: u[0], off: bytes.len(), len: u.len(), occ: None, what });
                 bytes.extend_from_slice(u);
             }
         }
         if k + 1 == n_base && end.is_some() {
             if let Some(list) = inserts.get(&usize::MAX) {
-                for u in list {
-                    events.push(Ev { code: u[0], off: bytes.len(), len: u.len(), occ: None, what: What::Unknown });
+                for (u, sp) in list {
+                    let what = sp.map_or(What::Unknown, |(code, last)| What::SplitUnknown { last, code });
+                    events.push(Ev { code: u[0], off: bytes.len(), len: u.len(), occ: None, what });
                     bytes.extend_from_slice(u);
                 }
             }
